@@ -77,6 +77,8 @@ def trace_to_hcase(r):
         for g, f in inds:
             t = (gid(g), key(f))
             k = next((i for i, (pg, pk, used) in enumerate(st["pend"]) if not used and (pg, pk) == t), None)
+            if k is None:   # the same evaluation may be stored more than once (Nelder-Mead reports an unimproved best again)
+                k = next((i for i, (pg, pk, used) in enumerate(st["pend"]) if (pg, pk) == t), None)
             if k is not None:
                 st["pend"][k] = (t[0], t[1], True)
                 srcs.append(f"Fresh {k}")
